@@ -19,6 +19,7 @@ from .trace import *  # noqa: F401,F403
 
 CFG = "pyxel/configuration/configuration.py"
 BOUNDED = {
+    r'call\.args\.after_change': 'histories of one earlier call and one change; 1..3 configured arguments',
     r'modes\.copies_keep_pipeline': 'processors with ten groups of one model (two models and a namesake in two of them); symbolic names, flags and arguments',
     r'^yaml ': 'YAML documents with 0..2 models per group in canonical and reversed key order',
 }      # unit-name / obligation-name patterns -> the family these obligations are proved for
